@@ -63,18 +63,17 @@ impl StringExpression {
                 .ok_or_else(|| StringError::invalid("unable to find `[` delimiter"))
                 .and_then(|indice| {
                     let length = 2 + indice;
-                    let start = if string
-                        .get(length..length + 1)
-                        .filter(|char| char == &"\n")
-                        .is_some()
-                    {
-                        length + 1
-                    } else {
-                        length
-                    };
                     string
-                        .get(start..string.len() - length)
-                        .map(str::to_owned)
+                        .get(length..string.len() - length)
+                        .map(|content| {
+                            // line breaks are read as `\n` and the one that directly follows
+                            // the opening bracket is skipped
+                            let content = content.replace("\r\n", "\n");
+                            match content.strip_prefix('\n') {
+                                Some(stripped) => stripped.to_owned(),
+                                None => content,
+                            }
+                        })
                         .ok_or_else(|| StringError::invalid(""))
                 })
                 .map(Self::from_value);
